@@ -8,9 +8,22 @@ HARNESSES = [
     {"name": "asan", "src": "harness.cpp", "flags": ["-O1", "-g", "-fsanitize=address,undefined", "-fno-sanitize-recover=all",
                                                       "-DTETL_ENABLE_CONTRACT_CHECKS=1"], "thorough_only": True},
 ]
+SORTS = ("sort", "stable_sort", "insertion_sort", "gnome_sort", "bubble_sort", "exchange_sort", "merge_sort")
+
+
+def fl(s_, d_):
+    """iterator flavour suffix: source kind 0 pointer / 1 input / 2 forward / 3 bidirectional,
+    destination kind 0 pointer / 1 output-iterator proxy / 2 back_insert_iterator / 3 forward-or-bidirectional wrapper"""
+    return "" if (s_, d_) == (0, 0) else f"_s{s_}d{d_}"
+
+
 RULE = ("exhaustive: every sequence of length <= 5 (quick) / 6 (thorough) over 3 keys with position tags (so stability and "
         "identity are observable) x every predicate/comparator id; every (first,middle,last) split for rotate/reverse on lengths <= 7/9; "
-        "every n in [-1,len+1] for shifts/copy_n; plus seeded random longer sequences; non-trivial = distinct case line with a non-empty range")
+        "every n in [-1,len+1] for shifts/copy_n; copies inside one array for every (first,last,dest) on both permitted sides; "
+        "the copying family with every compiling (source, destination) iterator flavour incl. output-iterator proxy and "
+        "back_insert_iterator; the overloads without comparator (comparator id 3); sorts / reverse on reverse_iterator; "
+        "reverse_iterator operators and advance/next/prev/distance for every category, position and distance on a length-6 range; "
+        "plus seeded random longer sequences; non-trivial = distinct case line with a non-empty range")
 TRUSTED_BASE = ["reference leg: libstdc++ 12 <algorithm> on a copy of the same input"]
 ASSUMPTIONS = ["element type int (moves are copies); predicates/comparators from the shared id family (coq/C06a/Instances.v)"]
 
@@ -28,6 +41,8 @@ def cmpkey(cid):
         return lambda v: key(v)
     if cid == 1:
         return lambda v: -key(v)
+    if cid == 3:
+        return lambda v: v          # plain `<`: the overloads without a comparator argument
     return lambda v: key(v) % 3
 
 
@@ -62,17 +77,73 @@ def gen(tier, rng):
                 out.append(f"copy_n {k} {L(l)}")
         for op in ("copy", "move", "copy_in", "copy_backward", "move_backward", "reverse_copy"):
             out.append(f"{op} {L(l)}")
+        for d_ in (0, 1, 2):
+            for s_ in (0, 1, 2, 3):
+                if (s_, d_) != (0, 0):
+                    out.append(f"copy{fl(s_, d_)} {L(l)}")
+                    out.append(f"move{fl(s_, d_)} {L(l)}")
+            for s_ in (0, 3):
+                if (s_, d_) != (0, 0):
+                    out.append(f"reverse_copy{fl(s_, d_)} {L(l)}")
+            for s_ in (0, 2):
+                for k in range(0, n + 1):
+                    if (s_, d_) != (0, 0):
+                        out.append(f"rotate_copy{fl(s_, d_)} {k} {L(l)}")
+            for s_ in (0, 1):
+                for k in range(-1, n + 1):
+                    if (s_, d_) != (0, 0):
+                        out.append(f"copy_n{fl(s_, d_)} {k} {L(l)}")
+        for (s_, d_) in ((3, 0), (0, 3), (3, 3)):
+            out.append(f"copy_backward{fl(s_, d_)} {L(l)}")
+            out.append(f"move_backward{fl(s_, d_)} {L(l)}")
+        # copies inside ONE array: every destination on both permitted sides of the source
+        if n <= 6:
+            for f in range(0, n + 1):
+                for la in range(f, n + 1):
+                    for d in range(0, n + 1):
+                        if (d <= f or la <= d) and d + (la - f) <= n:
+                            out.append(f"copy_ov {f} {la} {d} {L(l)}")
+                            out.append(f"move_ov {f} {la} {d} {L(l)}")
+                        if (la <= d or d <= f) and d - (la - f) >= 0:
+                            out.append(f"copy_backward_ov {f} {la} {d} {L(l)}")
+                            out.append(f"move_backward_ov {f} {la} {d} {L(l)}")
+        for f in range(0, n + 1):
+            for la in range(f, n + 1):
+                out.append(f"reverse_rev {f} {la} {L(l)}")
         for n2 in range(n, n + 3):
             l2 = list(range(100, 100 + n2))
             out.append(f"swap_ranges {L(l)} {L(l2)}")
+            out.append(f"swap_ranges_fwd {L(l)} {L(l2)}")
+            if n == 3 and n2 == 3:
+                out.append(f"swap_array {L(l)} {L(l2)}")
             out.append(f"transform2 0 {L(l)} {L(l2)}")
             out.append(f"transform2 1 {L(l)} {L(l2)}")
+            for (s_, d_) in ((1, 0), (0, 1), (1, 1), (0, 2), (1, 2)):
+                out.append(f"transform2{fl(s_, d_)} 1 {L(l)} {L(l2)}")
         for cnt in range(-1, n + 1):
-            out.append(f"fill_n {cnt} 7 {n}")
-            out.append(f"generate_n {cnt} 5 {n}")
-        out.append(f"fill 0 9 {n}")
-        out.append(f"generate 0 3 {n}")
+            for d_ in (0, 1, 2):
+                out.append(f"fill_n{fl(0, d_)} {cnt} 7 {n}")
+                out.append(f"generate_n{fl(0, d_)} {cnt} 5 {n}")
+        for s_ in (0, 2):
+            out.append(f"fill{fl(s_, 0)} 0 9 {n}")
+            out.append(f"generate{fl(s_, 0)} 0 3 {n}")
+        # reverse_iterator operators at every pair of reversed positions
+        if n <= 4:
+            for i in range(0, n + 1):
+                for j in range(0, n + 1):
+                    out.append(f"revit_cmp {n} {i} {j}")
+    # advance / next / prev / distance: every category, position and distance on a range of length 6
+    for cat in range(0, 4):
+        for pos in range(0, 7):
+            for k in range(-pos if cat in (0, 3) else 0, 6 - pos + 1):
+                out.append(f"iter_fn {cat} 6 {pos} {k}")
     allseqs = list(seqs(ML)) + [s for s in seqs(ML, tagged=False) if len(s) >= 2]
+    FL9 = [(s_, d_) for s_ in (0, 1, 2) for d_ in (0, 1, 2) if (s_, d_) != (0, 0)]
+    nfl = {}
+
+    def cyc(name, table):
+        nfl[name] = nfl.get(name, 0) + 1
+        return table[nfl[name] % len(table)]
     for l in allseqs:
         ls = L(l)
         for pid in range(0, 5):
@@ -88,21 +159,45 @@ def gen(tier, rng):
                 out.append(f"remove_copy_if {pid} {ls}")
                 out.append(f"partition_copy {pid} {ls}")
                 out.append(f"replace_if {pid} 99 {ls}")
+                # one further (source, destination) flavour per case, cycling through all of them
+                s_, d_ = cyc("p", FL9)
+                out.append(f"copy_if{fl(s_, d_)} {pid} {ls}")
+                out.append(f"remove_copy_if{fl(s_, d_)} {pid} {ls}")
+                out.append(f"partition_copy{fl(s_, d_)} {pid} {ls}")
+                out.append(f"replace_if{fl(2, 0)} {pid} 99 {ls}")
         for v in sorted(set(l))[:2] + [999]:
             out.append(f"remove {v} {ls}")
             if len(l) <= 4:
                 out.append(f"remove_copy {v} {ls}")
                 out.append(f"replace {v} 5 {ls}")
+                s_, d_ = cyc("v", FL9)
+                out.append(f"remove_copy{fl(s_, d_)} {v} {ls}")
+                out.append(f"replace{fl(2, 0)} {v} 5 {ls}")
         for eid in range(0, 3):
             out.append(f"unique {eid} {ls}")
             out.append(f"unique_full {eid} {ls}")
             if len(l) <= 4:
                 out.append(f"unique_fwd {eid} {ls}")
                 out.append(f"unique_copy {eid} {ls}")
-        for cid in range(0, 3):
-            for s in ("sort", "stable_sort", "insertion_sort", "gnome_sort", "bubble_sort", "exchange_sort", "merge_sort"):
+                s_, d_ = cyc("u", ((1, 0), (2, 0), (0, 3), (1, 3), (2, 3)))
+                out.append(f"unique_copy{fl(s_, d_)} {eid} {ls}")
+        for cid in range(0, 4):
+            if cid == 3 and len(l) > 4:
+                continue                      # comparator id 3 = the overload WITHOUT a comparator
+            for s in SORTS:
                 out.append(f"{s} {cid} {ls}")
                 out.append(f"{s}_full {cid} {ls}")
+            if len(l) <= 4 and cid in (0, 3):
+                for s in SORTS:               # the same algorithms on etl::reverse_iterator<int*>
+                    out.append(f"{s}_rev {cid} {ls}")
+                    out.append(f"{s}_rev_full {cid} {ls}")
+                for k in range(0, len(l) + 1):
+                    out.append(f"partial_sort_rev {cid} {k} {ls}")
+                    if k < len(l) or len(l) == 0:
+                        out.append(f"nth_element_rev {cid} {k} {ls}")
+            if len(l) <= 4 and cid != 3:
+                out.append(f"gnome_sort_bidi {cid} {ls}")
+                out.append(f"gnome_sort_bidi_full {cid} {ls}")
             if len(l) <= 4:
                 for k in range(0, len(l) + 1):
                     out.append(f"partial_sort {cid} {k} {ls}")
@@ -115,13 +210,15 @@ def gen(tier, rng):
         if len(l) <= 4:
             out.append(f"transform1 0 {ls}")
             out.append(f"transform1 1 {ls}")
+            s_, d_ = cyc("t", FL9)
+            out.append(f"transform1{fl(s_, d_)} 1 {ls}")
     # random longer sequences
     for _ in range(600 if quick else 20000):
         n = rng.randint(6, 14)
         l = [rng.randint(0, 4) * 16 + rng.randint(0, 15) for _ in range(n)]
         ls = L(l)
         pid = rng.randint(0, 4)
-        cid = rng.randint(0, 2)
+        cid = rng.randint(0, 3)
         eid = rng.randint(0, 2)
         f = rng.randint(0, n)
         m = rng.randint(f, n)
@@ -132,9 +229,13 @@ def gen(tier, rng):
         out.append(f"remove_if_full {pid} {ls}")
         out.append(f"unique_full {eid} {ls}")
         out.append(f"unique {eid} {ls}")
-        s = rng.choice(["sort", "stable_sort", "insertion_sort", "gnome_sort", "bubble_sort", "exchange_sort", "merge_sort"])
+        s = rng.choice(SORTS)
         out.append(f"{s} {cid} {ls}")
         out.append(f"{s}_full {cid} {ls}")
+        out.append(f"{s}_rev_full {cid} {ls}")
+        out.append(f"gnome_sort_bidi_full {cid} {ls}")
+        out.append(f"nth_element {cid} {rng.randint(0, n - 1)} {ls}")
+        out.append(f"partial_sort {cid} {rng.randint(0, n)} {ls}")
         mid = rng.randint(0, n)
         a = sorted(l[:mid], key=cmpkey(cid))
         b = sorted(l[mid:], key=cmpkey(cid))
